@@ -22,14 +22,18 @@
   discharges: the justification is in the node's own vote sets when it signs (C04 L8, L9).
 
   LAYER 2 (PARTIAL): that every history produced by the node model under any schedule, including
-  crash/restart (C07), satisfies A1–A3. Mechanised for runs of one node from a fresh state
-  (Props/C04 L6, L8, L9 over `stepIn` runs): A2 - every own precommit for a block names the block
-  with +2/3 prevotes in that round; the lock half of A3 - a held lock is backed by a polka in
-  `lockedRound` and (L2) a locked node prevotes the locked block; votes are signed for the current
-  height and round, which never go back. NOT mechanised: the history form of A3 (nothing else is
-  prevoted between a precommit and a later polka - needs the node's past votes as ghost state), A1
-  across restarts as a property of node runs (C03 proves it for the signer), and the composition
-  of several node models into one `History`. That is what the c01 "net" engine checks on the real
+  crash/restart (C07), satisfies A1–A3. Mechanised for runs of ONE node from a fresh state, over
+  the ghost list `signed` of everything it signs (Props/C04 L6, L8, L9, L10; runs of `stepIn` whose
+  timeouts are scheduled ones): A2 - every precommit for a block names the block with +2/3
+  prevotes in that round, in the node's own vote sets from the moment it signs; A3 (timed form) -
+  a precommit for b followed later by a prevote for something else in a later round comes with
+  +2/3 prevotes for something other than b in a round in between (inclusive of the prevote's
+  round); votes are signed for the current height and round, which never go back. NOT mechanised:
+  A1 as a property of node runs (C03 proves it for the signer the node signs through, across
+  restarts), runs with crash/WAL replay (the ghost history does not survive `Wal.restart`; C07),
+  and the composition of several node models with a network into one `THistory` (that a vote set's
+  +2/3 means +2/3 of the validators signed: C15 `majority_sound`). That composition is what the c01
+  "net" engine checks on the real
   nodes on every run: several real ConsensusStates
   under a seeded adversarial scheduler (reordering, duplication, loss with retransmission,
   arbitrary timeouts, Byzantine validators below 1/3 that equivocate, crash + WAL restart), each
